@@ -125,6 +125,17 @@ def counting(chk, facts):
         arms_with_inc = sorted(r["variants"][vi]["name"] for vi, a in ev["arms"].items() if a["events"])
         chk.ob(rule, "arms", arms_with_inc == ["BinaryApp", "GetAttr"], "arms applying increment: %s; required exactly [BinaryApp(GetTag), GetAttr(entity)]" % arms_with_inc,
                where=g.where(), fn=g.name, sample={"arms": arms_with_inc})
+    # the level of every target-position child reaches the returned level (an `if` target is as deep as its deeper branch)
+    L0 = shape.Labels(g, None, shape.variant_field_seed("ast::expr::ExprKind"))
+    Lr = shape.Labels(g, None, None, call_labels=lambda c, t: (
+        ["REC:" + x for x in L0.operand_labels(t[2][1]) if "." in x] if c == LC + "check_entity_deref_target_level" and len(t[2]) > 1 else None))
+    ret = {x for x in Lr.lab.get(0, set()) if x.startswith("REC:")}
+    want = {"REC:If.then_expr", "REC:If.else_expr", "REC:GetAttr.expr", "REC:BinaryApp.arg1", "REC:Record.0"}
+    miss = sorted(want - ret)
+    chk.ob(rule, "returned-levels", not miss, "levels measured on target-position children that reach the returned level: %s%s" % (sorted(ret), "" if not miss else "; lost: %s" % miss),
+           where=g.where(), fn=g.name, sample={"returned": sorted(ret)})
+    mins = [(b, t) for b, t in g.calls() if callee(t).split("::")[-1] in ("min", "min_by", "min_by_key") and any(x.startswith("REC:") for o in t[2] for x in Lr.operand_labels(o))]
+    chk.ob(rule, "if:deeper-branch", not mins, "branch levels are never combined with a minimum: %s" % (not mins), where=g.where(mins[0][1][1].get("l") if mins else None), fn=g.name)
     inc = facts.fn("cedar_policy_core::validator::level_validate::EntityDerefLevel::increment")
     if inc is not None:
         adds = [s for _, s in inc.stmts() if s[0] == "a" and s[2][0] == "bin" and s[2][1].startswith("Add")]
